@@ -4,6 +4,7 @@ import ast
 from .. import registries as R
 from .. import obligations as O
 from ..astutil import dotted, const, unparse, walk_shallow, kwarg, ancestors
+from .. import pat
 from ..cfg import build_cfg, repo_noreturn
 from ..model import AnalysisError
 from .c02 import level_independence
@@ -15,7 +16,7 @@ HELPER_DISCHARGE = {
                        '.type.is_numeric', 'array indices'),
     'gen_code_for_args': ('qbee.compiler',
                           'CompilationUnit.perform_argument_matching',
-                          '.type.is_coercible_to(param_type)',
+                          '.type.is_coercible_to(',
                           'call arguments'),
     'gen_static_array_init': ('qbee.compiler', 'Pass2.process_dim_pre',
                               'bound.type.is_numeric', 'array bounds'),
@@ -47,9 +48,11 @@ def no_dead_checks(ctx):
                         f'check never runs', f.file, f.line)
     # the dispatcher derives the handler name the same way
     g = repo.func('qbee.compiler', 'CompilePass.get_node_compile_func')
-    txt = unparse(g.node)
-    ok = "node.node_name().lower().replace(' ', '_')" in txt and \
-        "f'process_{type_name}_{pre_or_pos}'" in txt
+    ok = pat.has("_T = node.node_name().lower().replace(' ', '_')",
+                 g.node) and any(
+        isinstance(j, ast.JoinedStr) and
+        [v.value for v in j.values if isinstance(v, ast.Constant)] ==
+        ['process_', '_'] for j in ast.walk(g.node))
     ctx.instance(rule, f'{g.file}:CompilePass.get_node_compile_func')
     if not ok:
         raise AnalysisError('CompilePass.get_node_compile_func changed; the '
@@ -129,12 +132,7 @@ def located_diagnostics(ctx):
                              f'#{_ordinal(f, c)}')
                 t = unparse(loc) if loc is not None else None
                 ctx.instance(rule, construct, sample={'loc': t})
-                ok = t is not None and (
-                    t in ('loc', 'line_loc') or t.endswith('.loc_start') or
-                    t.endswith('.loc') or
-                    all(p.strip() in ('loc', 'line_loc', 'e.loc',
-                                      'e.loc_start')
-                        for p in t.split('+')))
+                ok = loc is not None and _is_position(loc, f)
                 if not ok:
                     ctx.finding(rule, construct,
                                 f'SyntaxError in {f.qualname} is constructed '
@@ -144,13 +142,44 @@ def located_diagnostics(ctx):
     ctx.floor('SyntaxError constructions', n_se, 12)
     # main displays e.loc_start
     m = repo.func('qbee.main', 'main')
-    ok = 'except (SyntaxError, CompileError)' in unparse(m.node) and \
-        'loc_start=e.loc_start' in unparse(m.node)
+    ok = any(isinstance(h, ast.ExceptHandler) and h.name and
+             isinstance(h.type, ast.Tuple) and
+             {dotted(e) for e in h.type.elts} ==
+             {'SyntaxError', 'CompileError'} and any(
+                 isinstance(c, ast.Call) and any(
+                     k.arg == 'loc_start' and
+                     unparse(k.value) == f'{h.name}.loc_start'
+                     for k in c.keywords) for c in ast.walk(h))
+             for h in ast.walk(m.node))
     ctx.instance(rule, f'{m.file}:main:handler')
     if not ok:
         ctx.finding(rule, f'{m.file}:main:handler',
                     'the command line no longer catches SyntaxError and '
                     'CompileError and displays e.loc_start', m.file, m.line)
+
+
+def _is_position(e, f):
+    """Is e derived from a parse position: the `loc` parameter of a parse
+    action, an attribute .loc/.loc_start, an int accumulator initialised
+    to 0 and advanced by len(...), or a sum of such."""
+    if isinstance(e, ast.BinOp) and isinstance(e.op, ast.Add):
+        return _is_position(e.left, f) and _is_position(e.right, f)
+    if isinstance(e, ast.Attribute):
+        return e.attr in ('loc', 'loc_start')
+    if isinstance(e, ast.Name):
+        params = [a.arg for a in f.node.args.args]
+        if e.id in params:
+            return len(params) == 3 and params.index(e.id) == 1
+        from ..astutil import local_defs
+        ds = local_defs(f.node).get(e.id, [])
+        kinds = {k for k, _ in ds}
+        if ds and kinds <= {'assign', 'aug'}:
+            return all(
+                (k == 'assign' and isinstance(v, ast.Constant) and
+                 v.value == 0) or
+                (k == 'aug' and 'len(' in unparse(v))
+                for k, v in ds)
+    return False
 
 
 def _ordinal(f, call):
@@ -337,9 +366,21 @@ def block_matching(ctx):
     for r in raises:
         cs = [(unparse(t.ast.test), lab) for t, lab in cfg.conditions(r)]
         conds[r.line] = cs
-    unopened = any(('not entered_blocks', 'true') in cs
+    # the stack of open blocks: the list that start statements are
+    # appended to
+    stack = None
+    for c in ast.walk(ps.node):
+        if isinstance(c, ast.Call) and isinstance(c.func, ast.Attribute) \
+                and c.func.attr == 'append' and c.args and \
+                isinstance(c.args[0], ast.Tuple) and \
+                isinstance(c.func.value, ast.Name):
+            stack = c.func.value.id
+    if stack is None:
+        raise AnalysisError('anchor vanished: open-block stack in '
+                            'parse_string')
+    unopened = any((f'not {stack}', 'true') in cs
                    for cs in conds.values())
-    unclosed = any(('entered_blocks', 'true') in cs and
+    unclosed = any((stack, 'true') in cs and
                    not any('isinstance' in t for t, _ in cs)
                    for cs in conds.values())
     ctx.instance(rule, f'{ps.file}:parse_string',
@@ -353,11 +394,8 @@ def block_matching(ctx):
                     'an unclosed block at end of input no longer raises '
                     'SyntaxError', ps.file, ps.line)
     bc = repo.func('qbee.stmt', 'Block.create')
-    ok = any(isinstance(n, ast.If) and
-             'not isinstance(end_stmt, expected_end_stmt)' ==
-             unparse(n.test) and any(
-                 isinstance(s, ast.Raise) and 'SyntaxError' in unparse(s)
-                 for s in n.body) for n in ast.walk(bc.node))
+    ok = pat.has('if not isinstance(end_stmt, __):\n'
+                 '    raise SyntaxError(...)', bc.node)
     ctx.instance(rule, f'{bc.file}:Block.create')
     if not ok:
         ctx.finding(rule, f'{bc.file}:Block.create:mismatch',
@@ -389,11 +427,11 @@ def literal_checks(ctx):
              'converts ValueError into a located SyntaxError')
     f = repo.func('qbee.expr', 'NumericLiteral.parse')
     txt = unparse(f.node)
-    for frag, what in (("value < -32768 or value > 32767", 'INTEGER'),
-                       ("value < -2 ** 31 or value > 2 ** 31 - 1", 'LONG'),
-                       ("struct.pack('>f', value)", 'SINGLE')):
+    for frag, what in (("if _V < -32768 or _V > 32767:\n    raise ValueError(...)", 'INTEGER'),
+                       ("if _V < -2 ** 31 or _V > 2 ** 31 - 1:\n    raise ValueError(...)", 'LONG'),
+                       ("try:\n    struct.pack('>f', _V)\nexcept OverflowError:\n    raise ValueError(...)", 'SINGLE')):
         ctx.instance(rule, f'{f.file}:NumericLiteral.parse:{what}')
-        if frag not in txt:
+        if not pat.has(frag, f.node):
             ctx.finding(rule, f'{f.file}:NumericLiteral.parse:{what}',
                         f'range check for {what} literals not found',
                         f.file, f.line)
@@ -403,7 +441,7 @@ def literal_checks(ctx):
         if isinstance(n, ast.Try):
             for h in n.handlers:
                 if dotted(h.type) == 'ValueError' and \
-                        'raise SyntaxError(loc' in unparse(h):
+                        pat.has('raise SyntaxError(...)', h):
                     ok = True
     ctx.instance(rule, f'{g.file}:parse_num_literal')
     if not ok:
